@@ -211,7 +211,7 @@ func c17Run(c *Ctx) {
 	}
 	cfg := &DeclCfg{
 		MaxDepth: 2, MaxFan: 3, PCmds: 50, Types: []TypeSpec{{K: KString}, {K: KBool}, {K: KInt}, {K: KString, W: WSlice}, {K: KFloat64}, {K: KString, W: WMap, MapKey: KString}, {K: KOnOff}, {K: KOnOff, W: WSlice}},
-		OptsMin: 1, OptsMax: 4, SubGroupsMax: 2, NestMax: 2, PNamespace: 30, PShortOnly: 15, PLongOnly: 30, PChoices: 15,
+		OptsMin: 1, OptsMax: 4, SubGroupsMax: 2, PInline: 20, NestMax: 2, PNamespace: 30, PShortOnly: 15, PLongOnly: 30, PChoices: 15,
 		PPos: 50, PosMax: 3, PRest: 40, PByTag: 60, PSubOptional: 50, PAliases: 20, PDesc: 0, PValueName: 35, PDefault: 20, PHiddenGrp: 15, PHiddenCmd: 10, PHidden: 8,
 		ParserOpts: []flags.Options{flags.HelpFlag, 0, flags.HelpFlag | flags.PassDoubleDash}, NoHelpNames: true,
 		PosTypes: []TypeSpec{{K: KString}},
